@@ -491,6 +491,100 @@ def case_sequence(acc, bname, names, ops):
         rmtree(work)
 
 
+def case_steps(acc, bname, names, ops):
+    """Run a fixed sequence of operations from the backend's initial state, judging EVERY step against the model
+    (fresh, warm and bystander containers, as in the BFS)."""
+    backend = BACKENDS[bname]()
+    names = [bytes(n) for n in names]
+    snap, model = backend.initial(names)
+    work = fresh_dir("c16q")
+    try:
+        path = []
+        for op in ops:
+            op = tuple(op)
+            r = transition(acc, bname, names, snap, model, op, path, work)
+            if r is None:
+                break
+            snap, model = r
+            path.append(op)
+    finally:
+        rmtree(work)
+
+
+def length_sweep_tasks(quick):
+    """Record-encoding boundaries: ref names of every length 12..44 (the reftable record header packs
+    (suffix_length << 3 | type) into a varint: 16 bytes is the first two-byte value), with a sibling that shares
+    all but the last byte (prefix compression), through create / update / symref / delete (tombstone) / re-create."""
+    out = []
+    for L in range(12, 45 if quick else 140):
+        name = b"refs/heads/" + b"n" * (L - 11)
+        sib = name[:-1] + b"m"
+        link = b"refs/tags/" + b"l" * (L - 10)
+        ops = [("set", name, X), ("cas", name, X, Y), ("set", sib, X), ("symref", link, name), ("rm", name, Y), ("add", name, X),
+               ("del", link), ("rm", sib, None), ("del", name)]
+        for bname in ("files", "dict", "reftable"):
+            out.append(("steps", bname, [HEAD, name, sib, link], ops))
+    # many updates of one table stack (update-index varint crosses 127 -> 128)
+    many = []
+    for i in range(135 if quick else 300):
+        many.append(("set", A, X if i % 2 == 0 else Y))
+    out.append(("steps", "reftable", [HEAD, A], many))
+    return out
+
+
+def case_symref_depth(acc, k, dangling):
+    """A loop-free chain of k symbolic refs s1 -> s2 -> ... -> sk -> t.  All backends and C git must agree on whether s1
+    resolves (git follows at most 5 levels)."""
+    chain = [b"refs/heads/s%d" % i for i in range(1, k + 1)]
+    target = b"refs/heads/t"
+    got = {}
+    work = fresh_dir("c16d")
+    try:
+        for bname in ("files", "dict", "reftable"):
+            backend = BACKENDS[bname]()
+            snap, _model = backend.initial([HEAD])
+            root = os.path.join(work, bname)
+            refs = backend.open(snap, root)
+            if not dangling:
+                refs[target] = X
+            for i in range(k - 1, -1, -1):
+                refs.set_symbolic_ref(chain[i], chain[i + 1] if i + 1 < k else target)
+            fresh = backend.reopen(root) or refs
+            o = observe(fresh, [chain[0]])
+            r = o["read"][chain[0]]
+            got[bname] = ("resolves" if r == X else "unresolvable" if r in ("KeyError", "loop") else r,
+                          o["in"][chain[0]], isinstance(o["dict"], dict) and chain[0] in o["dict"])
+            acc.count("transitions")
+            if bname == "files":
+                os.makedirs(os.path.join(root, "objects"), exist_ok=True)
+                if not os.path.exists(os.path.join(root, "config")):
+                    with open(os.path.join(root, "config"), "wb") as f:
+                        f.write(b"[core]\n\trepositoryformatversion = 0\n\tbare = true\n")
+                p = git(["rev-parse", "--verify", "-q", chain[0].decode()], cwd=root, check=False, env={"GIT_DIR": root})
+                got["git"] = ("resolves" if p.returncode == 0 and p.stdout.strip() == X else "unresolvable",)
+        acc.outcome("symref-depth:%d%s:%s" % (k, ":dangling" if dangling else "", "/".join("%s=%s" % (b, got[b][0]) for b in sorted(got))))
+        rpl = rp(case_symref_depth, k, dangling)
+        what = "chain of %d symbolic refs ending in %s" % (k, "nothing" if dangling else "a ref with value X")
+        if got["files"][0] != got["git"][0]:
+            acc.violation("files:symref-depth:dulwich-%s-git-%s" % (got["files"][0], got["git"][0]), "%s: %r" % (what, got), rpl)
+        for b in ("dict", "reftable"):
+            if got[b] != got["files"]:
+                acc.violation("%s:symref-depth:differs-from-files-backend" % b, "%s: read/in/as_dict = %r" % (what, got), rpl)
+    finally:
+        rmtree(work)
+
+
+def work_sweeps(task):
+    acc = Acc()
+    if task[0] == "steps":
+        case_steps(acc, task[1], task[2], task[3])
+    elif task[0] == "depth":
+        case_symref_depth(acc, task[1], task[2])
+    else:
+        raise AssertionError(task)
+    return acc
+
+
 def case_reftable_zero(acc):
     """old value ZERO means 'must not exist' (files and dict backends); recorded once for reftable."""
     b = ReftableBackend()
@@ -647,6 +741,9 @@ def run(ctx):
     stats.append(bfs(ctx, "dict", U3, max_depth=4 if q else 6))
     stats.append(bfs(ctx, "reftable", U3, max_depth=3 if q else 4))
     case_reftable_zero(ctx.acc)
+    sweeps = length_sweep_tasks(q) + [("depth", k, d) for k in range(1, 9) for d in (False, True)]
+    for acc in pmap(work_sweeps, ctx.order(sweeps), jobs=ctx.jobs):
+        ctx.acc.merge(acc)
     if not q:
         stats.append(bfs(ctx, "files", U5, max_depth=3, gitcheck=True))
     # names
